@@ -470,7 +470,7 @@ namespace
 
         Harness h;
         H = &h;
-        std::int64_t start = 1000, end = 2000, slice = 1000, virt = 1, v0 = 900, nnodes = 1, prestop = 0, heartbeat = 0;
+        std::int64_t start = 1000, end = 2000, slice = 1000, virt = 1, v0 = 900, nnodes = 1, prestop = 0, heartbeat = 0, join_on = 0, join_ta2 = 0, join_db = -1, join_t = 0;
         h.dflt = 1;
         for (const Line &l : c)
         {
@@ -498,6 +498,7 @@ namespace
             else if (l[0] == 6 && l.size() >= 2) { nnodes = l[1]; }
             else if (l[0] == 7 && l.size() >= 2) { prestop = l[1]; }
             else if (l[0] == 8 && l.size() >= 2) { heartbeat = l[1]; }
+            else if (l[0] == 9 && l.size() >= 4) { join_on = 1; join_ta2 = l[1]; join_db = l[2]; join_t = l[3]; }
         }
         if (nnodes < 1) { nnodes = 1; }
         if (nnodes > 4) { nnodes = 4; }
@@ -569,6 +570,82 @@ namespace
                 run_ops(i, v, t, k);
             };
             gb.add_node(NodeBuilder::native(std::move(schema), std::move(cb)));
+        }
+
+        if (join_on != 0)
+        {
+            // The one wired shape of this family: sources A (id 101) and B (id 102) and a join J (id 103) with inputs
+            // a (active) and b (passive), default gate (every input must be valid).  J arms a NodeScheduler timer at
+            // start+join_t in its start hook.  A ticks in the start cycle (and again at +join_ta2), B at +join_db (or
+            // never): while b is invalid a tick of a notifies J, which is gated out - its timer must stay armed.
+            const std::size_t base = (std::size_t)(1 + (heartbeat != 0 ? 1 : 0) + nnodes);
+            auto raw_req = [](std::int64_t id, const NodeView &v, DateTime now, std::int64_t arg, bool started) {
+                v.graph_value()->schedule_node(v.node_index(), now + TimeDelta{arg});
+                const std::int64_t shift = H->hooks ? 0 : H->offset;
+                const bool         entered = started ? arg > 0 : arg >= 0;
+                Line l{19, id, 8, arg, entered ? us(now) - shift + arg : 0, 0, 0, 0};
+                if (!H->hooks) { l[6] = now_logged(); l[7] = l[6]; }
+                if (H->hooks) { loop_event(std::move(l), false); }
+                else { log_free(std::move(l)); }
+            };
+            auto emit = [](const NodeView &v, DateTime now, std::int64_t val) {
+                auto mutation = v.output(now).begin_mutation(now);
+                static_cast<void>(mutation.move_value_from(Value{val}));
+            };
+            auto src = [&](std::int64_t id, std::int64_t first, std::int64_t second) {
+                NodeTypeMetaData schema;
+                schema.display_name  = "hgv_src";
+                schema.output_schema = ts_int;
+                schema.node_kind     = NodeKind::PullSource;
+                NodeCallbacks cb;
+                cb.start = [=](const NodeView &v, DateTime t) {
+                    if (first >= 0) { raw_req(id, v, t, first, false); }
+                };
+                auto runs = std::make_shared<std::int64_t>(0);
+                cb.evaluate = [=](const NodeView &v, DateTime t) {
+                    const std::int64_t k = (*runs)++;
+                    if (H->hooks) { loop_event({18, id, k}); }
+                    else { log_free({18, id, k}); }
+                    emit(v, t, k + 1);
+                    if (k == 0 && second > 0) { raw_req(id, v, t, second, true); }
+                };
+                gb.add_node(NodeBuilder::native(std::move(schema), std::move(cb)));
+            };
+            src(101, 0, join_ta2);
+            src(102, join_db, 0);
+            {
+                std::vector<std::pair<std::string, const TSValueTypeMetaData *>> fields{{"a", ts_int}, {"b", ts_int}};
+                std::vector<TSEndpointSchema> children{TSEndpointSchema::peered(ts_int), TSEndpointSchema::peered(ts_int)};
+                const auto      *in_schema = registry.un_named_tsb(fields);
+                NodeTypeMetaData schema;
+                schema.display_name   = "hgv_join";
+                schema.uses_scheduler = true;
+                schema.input_schema   = in_schema;
+                schema.active_inputs  = std::vector<std::size_t>{0};
+                schema.node_kind      = NodeKind::Sink;
+                NodeCallbacks      cb;
+                const std::int64_t jt = join_t;
+                cb.start = [jt](const NodeView &v, DateTime t) {
+                    NodeScheduler sched{v.scheduler_state(), v.graph_value(), v.node_index(), t, v.started()};
+                    sched.schedule(t + TimeDelta{jt}, std::string{"j"});
+                    const std::int64_t shift = H->hooks ? 0 : H->offset;
+                    const DateTime     when  = sched.tag_time("j", MIN_DT);
+                    Line               l{19, 103, 1, jt, when == MIN_DT ? 0 : us(when) - shift, 0, 0, 0};
+                    if (!H->hooks) { l[6] = now_logged(); l[7] = l[6]; }
+                    if (H->hooks) { loop_event(std::move(l), false); }
+                    else { log_free(std::move(l)); }
+                };
+                auto runs = std::make_shared<std::int64_t>(0);
+                cb.evaluate = [runs](const NodeView &, DateTime) {
+                    const std::int64_t k = (*runs)++;
+                    if (H->hooks) { loop_event({18, 103, k}); }
+                    else { log_free({18, 103, k}); }
+                };
+                gb.add_node(NodeBuilder::native(std::move(schema), std::move(cb),
+                                                TSEndpointSchema::non_peered(in_schema, std::move(children))));
+            }
+            gb.add_edge(GraphEdge{.source_node = base, .source_path = {}, .target_node = base + 2, .target_path = {0}});
+            gb.add_edge(GraphEdge{.source_node = base + 1, .source_path = {}, .target_node = base + 2, .target_path = {1}});
         }
 
         Obs                  obs;
